@@ -70,6 +70,7 @@ func TestC08OpeningMessageMatchesTransaction(t *testing.T) {
 		}
 		var id string
 		var premiumSat int64
+		agrVersion := uint8(7)
 		if viaRequest {
 			rate := rapid.SampledFrom([]int64{0, 2000, -1500, 10_000}).Draw(t, "ratePPM")
 			as := premium.BTC
@@ -101,13 +102,24 @@ func TestC08OpeningMessageMatchesTransaction(t *testing.T) {
 			}
 			id = sm.SwapId.String()
 			premiumSat = rapid.SampledFrom([]int64{0, 1, 1000, -1000, int64(amount / 20)}).Draw(t, "premium")
-			agr, _ := json.Marshal(&swap.SwapInAgreementMessage{ProtocolVersion: 7, SwapId: sm.SwapId, Pubkey: takerPub, Premium: premiumSat})
+			// the version the responder echoes is not negotiated again: the swap keeps the parameters (csv,
+			// invoice expiry / cltv) of the protocol version this node requested
+			agrVersion = rapid.SampledFrom([]uint8{7, 7, 7, 6, 0, 8, 255}).Draw(t, "agreementVersion")
+			agr, _ := json.Marshal(&swap.SwapInAgreementMessage{ProtocolVersion: agrVersion, SwapId: sm.SwapId, Pubkey: takerPub, Premium: premiumSat})
 			a.N.Deliver(m.Id, mtSwapInAgreement, agr)
 		}
 		desc := fmt.Sprintf("chain=%s viaRequest=%v amount=%d premium=%d before=%d after=%d inputs=%d equal=%v", chain, viaRequest, amount, premiumSat, before, after, inputs, equal)
 		msg := lastOfType(a.N, mtOpeningTx)
+		if msg == nil && agrVersion != 7 {
+			// refusing an agreement that names another protocol version is fine
+			col.Case(desc+fmt.Sprintf(" agreementVersion=%d", agrVersion), false, nil, "agreement-with-other-version-refused")
+			return
+		}
 		if msg == nil {
 			t.Fatalf("harness: no opening_tx_broadcasted sent (%s)\n%s", desc, sim.LogDump())
+		}
+		if agrVersion != 7 {
+			desc += fmt.Sprintf(" agreementVersion=%d", agrVersion)
 		}
 		var ob swap.OpeningTxBroadcastedMessage
 		if err := json.Unmarshal(msg.Payload, &ob); err != nil {
